@@ -4,6 +4,7 @@ package cluster2
 
 import (
 	"bufio"
+	"context"
 	"encoding/json"
 	"fmt"
 	"os"
@@ -26,7 +27,8 @@ type lambdaShape struct {
 	Count   int              `json:"count"`
 	Stdin   bool             `json:"stdin"`
 	Prior   int              `json:"prior"`
-	Scripts map[int]ctScript `json:"scripts"` // by ERU_WORKLOAD_SEQ
+	Scripts map[int]ctScript `json:"scripts"`          // by ERU_WORKLOAD_SEQ
+	Cancel  string           `json:"cancel,omitempty"` // count 1 only: the CALLER's context is cancelled when the engine is asked for "logs" / "wait"
 }
 
 type createJ struct {
@@ -112,7 +114,16 @@ func runLambda(t *testing.T, sh lambdaShape, id, tag string) *lambdaCase {
 	opts.Entrypoint.Commands = []string{"true"}
 	inCh := make(chan []byte)
 	close(inCh)
-	wids, ch, err := cl.C.RunAndWait(cl.Ctx(), opts, inCh)
+	ctx, cancel := context.WithCancel(cl.Ctx())
+	defer cancel()
+	if sh.Cancel != "" {
+		hub.onCall = func(kind string) {
+			if kind == sh.Cancel {
+				cancel()
+			}
+		}
+	}
+	wids, ch, err := cl.C.RunAndWait(ctx, opts, inCh)
 	if err != nil {
 		c.Err = "refused"
 		c.Closed = true
@@ -210,6 +221,9 @@ func lambdaCorpus() []lambdaShape {
 		{Nodes: 2, Count: 3, Prior: 1, Scripts: map[int]ctScript{0: {Lines: 1, LogsFail: true}, 1: {Lines: 2, WaitFail: true}, 2: {Lines: 0, Code: 255}}},
 		{Nodes: 1, Count: 1, Stdin: true, Scripts: map[int]ctScript{0: {Lines: 1, AttachFail: true}}},
 		{Nodes: 1, Count: 2, Scripts: map[int]ctScript{0: {StartFail: true}, 1: {Lines: 1, Code: 1}}},
+		// the caller goes away while the workload runs: it must still be removed
+		{Nodes: 1, Count: 1, Prior: 1, Cancel: "wait", Scripts: map[int]ctScript{0: {Lines: 2, Code: 3}}},
+		{Nodes: 1, Count: 1, Cancel: "logs", Scripts: map[int]ctScript{0: {Lines: 1, Code: 0}}},
 	}
 }
 
@@ -223,6 +237,9 @@ func genLambda(t *testing.T, out *hx.Out, budget int) {
 		}
 		for i := 0; i < sh.Count; i++ {
 			sh.Scripts[i] = genScript(r, sh.Stdin)
+		}
+		if sh.Count == 1 && !sh.Scripts[0].StartFail && r.Chance(25) {
+			sh.Cancel = hx.Pick(r, "wait", "logs")
 		}
 		shapes = append(shapes, sh)
 	}
